@@ -211,6 +211,16 @@ func VerifUpdateStep() {
 		rt.Name("r.kind", kind)
 		rt.Name("r.outKind", outKind)
 		small := oldSize <= 12
+		prefer := oldSize <= 12
+		if known {
+			rt.Name("r.nextSigLines", rt.SigLines(nextRaw))
+			prefer = prefer && rt.CpSize(nextRaw) <= 9 && rt.SigLines(nextRaw) <= 100
+			if hadPrev {
+				rt.Name("r.prevSigLines", rt.SigLines(prevRaw))
+				prefer = prefer && rt.CpSize(prevRaw) <= 9 && rt.SigLines(prevRaw) <= 100
+			}
+		}
+		rt.Prefer(prefer && rt.Count("SignFail") == 0)
 		if known {
 			rt.Name("r.nextValid", rt.Valid(nextRaw, c.origins[li], c.keys[li], nil))
 			rt.Name("r.nextSize", rt.CpSize(nextRaw))
